@@ -139,8 +139,24 @@ def ob_class(cname, window):
     def f():
         C = config_class(cls)
         kw = test_config(cls)
-        if sym.MODE == "replay":
-            cfg = C(**kw)
+        # configuration values: numeric scalars and the elements of numeric lists are solver variables
+        d = {}
+        for k, v in kw.items():
+            if isinstance(v, bool) or not isinstance(v, (int, float, list)):
+                d[k] = v
+            elif isinstance(v, int):
+                d[k] = sym.integer(k, max(1, v - window), v + window)
+            elif isinstance(v, float):
+                d[k] = sym.real(k)
+            elif v and all(isinstance(x, float) for x in v):
+                d[k] = [sym.real(f"{k}.{i}") for i in range(len(v))]
+            else:
+                d[k] = list(v)
+        if sym.MODE == "replay":          # the recorded values, through the public API, on the real libraries
+            try:
+                cfg = C(**d)
+            except Exception:
+                return OK
             before = cfg.model_dump()
             try:
                 cls(cfg).optimize(_task())
@@ -152,18 +168,11 @@ def ob_class(cname, window):
                 return Failure("configuration-differs-after-optimize", cls=cname, changed=diff)
             return OK
         with env(rng_deny=False):
-            d = {}
-            for k, v in kw.items():
-                if isinstance(v, bool) or not isinstance(v, (int, float)):
-                    d[k] = v
-                elif isinstance(v, int):
-                    d[k] = sym.integer(k, max(1, v - window), v + window)
-                else:
-                    d[k] = sym.real(k)
             try:
                 valid = C(**d)
             except ValueError:
                 sym.assume(False)
+            snapshot = {k: (list(v) if isinstance(v, list) else v) for k, v in valid.__dict__.items()}
             rec = RecCfg(valid.__dict__)
             o = cls()
             o._config = rec
@@ -181,6 +190,10 @@ def ob_class(cname, window):
             for (k, old, new) in rec._log:
                 if old != new:
                     return Failure("store-into-the-configuration", cls=cname, field=k, old=old, new=new)
+            for k, v in snapshot.items():          # in-place edits of list-valued fields (sort, append, item assignment)
+                if isinstance(v, list) and list(rec._d[k]) != v:
+                    return Failure("list-valued-configuration-field-edited-in-place", cls=cname, field=k, old=v,
+                                   new=list(rec._d[k]))
             if died is not None and not isinstance(died, Exception):
                 raise died
             return OK
